@@ -398,7 +398,12 @@ func (v *objectBase) unmarshal(p []byte, eof bool, maxElems int) (err error) {
 			return oe.WithMessage(err, fmt.Sprintf("unmarshal prop %v", string(u)))
 		}
 
-		v.Set(string(u), a)
+		// Keep every decoded property, even when the key repeats, so that Size()
+		// is the number of bytes consumed and re-marshalling reproduces the input.
+		v.lock.Lock()
+		v.properties = append(v.properties, &property{key: u, value: a})
+		v.lock.Unlock()
+
 		p = p[a.Size():]
 		return nil
 	}
